@@ -16,10 +16,10 @@ func init() {
 		trusted: []string{"the harness-side renderer; catalog equality is judged on the full JSON with every ordered collection compared as a set of entries"},
 	}
 	props["C20"] = &propCheck{
-		lean:    []string{"JSight.Props.C20"},
-		exes:    []string{},
+		lean:    []string{"JSight.Props.C20", "JSight.Props.C04_Build"},
+		exes:    []string{"jsight-build"},
 		run:     runC20,
-		assume:  []string{"the registry theorems are name-level; that no OTHER entry changes its content is decided by search", "the schema library answers for existing bodies do not change when an unreferenced type or enum is added (observed)"},
+		assume:  []string{"the locality theorems cover an appended TYPE, SERVER (with or without BaseUrl) and TAG on the catalog model (C04_Build.add_*_local) and additions/removals on the name registry; for the other kinds and for insertion points inside the document, that no OTHER entry changes is decided by search", "the schema library answers for existing bodies do not change when an unreferenced type or enum is added (observed)"},
 		rule:    "generated accepted documents x one fresh declaration of each kind (type, enum, server, tag, path-bearing method on an unrelated path, JSON-RPC URL) x every insertion point between top-level blocks, and every unreferenced declaration deleted; non-trivial = accepted base document with >= 2 blocks; distinct = distinct (document, change)",
 		trusted: []string{"the harness-side renderer"},
 	}
@@ -208,6 +208,7 @@ func freshBlocks(k int) []BlockM {
 
 func runC20(ctx *Ctx) {
 	r := ctx.Rng.Fork()
+	buildCorrSuite(ctx, r.Fork(), ctx.Budget(200, 20000))
 	regCorrespondence(ctx, r, ctx.Budget(2000, 60000))
 	n := ctx.Budget(200, 8000)
 	for i := 0; i < n && len(ctx.Violations) < 10; i++ {
